@@ -46,15 +46,21 @@ theorem reach_firstLoadInv {g : List NodeInfo} {s : State} (h : Reach g s) : Fir
   | init => intro _ _ o; exact ⟨rfl, rfl⟩
   | step _ hen ih => exact firstLoadInv_step ih hen
 
-/-- a node one of whose forks is complete has finished prenodes -/
+theorem apply_reopened_false {s : State} {e : Ev}
+    (h : (apply s e).reopened = false) : s.reopened = false := by
+  cases e <;> simp_all [apply, State.updMeta]
+
+/-- a node one of whose forks is complete has finished prenodes — as long as no
+restart re-opened a finished node (`reopened`) -/
 def CompleteInv (s : State) : Prop :=
-  ∀ q f, (s.m ⟨q, f, .fork⟩).disk.has .complete = true → ∀ p ∈ s.pre q, nodeDone s p = true
+  s.reopened = false → ∀ q f, (s.m ⟨q, f, .fork⟩).disk.has .complete = true → ∀ p ∈ s.pre q, nodeDone s p = true
 
 theorem completeInv_step {s : State} {e : Ev} (hobj : ObjsInv s) (hfull : s.full = false)
     (hpre : PreInv s)
     (hfl : FirstLoadInv s) (h : CompleteInv s) (hen : enabled s e = true) :
     CompleteInv (apply s e) := by
-  intro q f hc p hp
+  intro hro q f hc p hp
+  have hro0 := apply_reopened_false hro
   rw [apply_pre] at hp
   cases hold : (s.m ⟨q, f, .fork⟩).disk.has .complete
   · rcases disk_origin hen hold hc with ⟨h', hw⟩ | h' | ⟨_, h'⟩ | ⟨_, h'⟩ | ⟨_, h'⟩
@@ -67,13 +73,17 @@ theorem completeInv_step {s : State} {e : Ev} (hobj : ObjsInv s) (hfull : s.full
     · rcases h' with h' | h' <;> cases h'
     · cases h'
     · cases h'
-  · refine done_stable hobj hfull hen (fun hl h0 => ?_) (h q f hold p hp)
-    have := (hfl h0 hl ⟨q, f, .fork⟩).2
-    rw [hold] at this; cases this
+  · have hdp := h hro0 q f hold p hp
+    refine done_stable hobj hfull hen (fun hl f' he => ?_) hdp
+    subst he
+    by_cases h0 : s.inc = 0
+    · have := (hfl h0 hl ⟨q, f, .fork⟩).2
+      rw [hold] at this; cases this
+    · simp [apply, hl, h0, hdp] at hro
 
 theorem reach_completeInv {g : List NodeInfo} {s : State} (h : Reach g s) : CompleteInv s := by
   induction h with
-  | init => intro q f hc; cases hc
+  | init => intro _ q f hc; cases hc
   | step hr hen ih =>
     exact completeInv_step (reach_objsInv hr) (reach_full hr) (reach_preInv hr) (reach_firstLoadInv hr) ih hen
 
@@ -130,7 +140,8 @@ theorem nodeDone_state {s : State} {q : Nat} (h : nodeDone s q = true) :
   · rename_i d; cases d <;> simp
   · simp [hs] at h
 
-theorem upstream_done {s : State} (hobj : ObjsInv s) (hci : CompleteInv s) {n p : Nat}
+theorem upstream_done {s : State} (hobj : ObjsInv s) (hci : CompleteInv s)
+    (hro : s.reopened = false) {n p : Nat}
     (hu : Upstream s n p) (hn : ∀ q ∈ s.pre n, nodeDone s q = true) : nodeDone s p = true := by
   induction hu with
   | direct hp => exact hn _ hp
@@ -138,7 +149,7 @@ theorem upstream_done {s : State} (hobj : ObjsInv s) (hci : CompleteInv s) {n p 
     apply ih
     rcases nodeDone_state (hn _ hq) with hc | hd
     · obtain ⟨f, hf⟩ := nodeState_complete_fork hobj hc
-      exact hci _ f hf
+      exact hci hro _ f hf
     · exact absurd hd hnd
 
 
